@@ -26,6 +26,7 @@
 import Gojq.Proofs.PairsReplay
 import Gojq.Proofs.PairsEntries
 import Gojq.Proofs.PairsTie
+import Gojq.Proofs.PairsEval
 namespace Gojq.C13
 open Gojq Gojq.Stream Gojq.Pairs
 
@@ -259,28 +260,78 @@ theorem to_entries_from_entries_array_counterexample :
     ((toEntries (.arr [jvInt 1])).bind fromEntries).isNone = true := by
   decide +kernel
 
-/-- `toEntries` IS the shipped `to_entries` (on the tie values: objects, arrays, scalars = error) -/
-theorem to_entries_is_shipped :
-    (Tie.tieValues.all fun v => Tie.agrees (Tie.run 200 Tie.qToEntries v) (toEntries v)) = true := by
-  decide +kernel
+/-! ### the tie of (4) to the shipped definitions is a THEOREM for every input
 
-/-- `fromEntries` IS the shipped `from_entries`: every key spelling (`key`, `Key`, `name`, `Name`),
-    `false`/`null` keys falling through, `value` / `Value` / neither, number keys and non-object
-    entries (errors), an object of entries, a repeated key, non-arrays -/
-theorem from_entries_is_shipped :
+  `Spec.eval` run on the regenerated ASTs of builtin.jq (`Generated/BuiltinDefs.lean`), by symbolic
+  evaluation for an arbitrary input value, any sufficient fuel and any calling environment that
+  does not shadow the builtin.  `Tie.Agrees r o`: `r` emits exactly the value `o` and ends normally —
+  or, for `o = none`, emits nothing and ends with a jq error. -/
+
+/-- the definitions evaluated below ARE the shipped ones: the regenerated `FuncDef`s of
+    `to_entries`, `from_entries`, `with_entries`, `map` are the bodies named in Proofs/PairsEval.lean
+    (an edit of builtin.jq breaks this `rfl`) -/
+theorem entries_definitions_are_shipped :
+    Generated.Builtins.go_to_uentries_a00 = .mk "to_entries" [] toEntriesBody ∧
+    Generated.Builtins.go_from_uentries_a00 = .mk "from_entries" [] fromEntriesBody ∧
+    Generated.Builtins.go_with_uentries_a01 = .mk "with_entries" ["f"] withEntriesBody ∧
+    Generated.Builtins.go_map_a01 = .mk "map" ["f"] mapBody :=
+  ⟨rfl, rfl, rfl, rfl⟩
+
+/-- **`toEntries` IS the shipped `to_entries`, on EVERY value** (objects, arrays — and the error on
+    everything else) -/
+theorem to_entries_is_shipped (fuel : Nat) (hf : 40 ≤ fuel) (env : Spec.Env) (v : JV) (id : Spec.Ident)
+    (h : Spec.lookupCall "to_entries" 0 env.bs = .none) :
+    Tie.Agrees (Spec.eval fuel Tie.cfgGo env Tie.qToEntries { v := v, id := id }) (toEntries v) :=
+  eval_to_entries fuel hf env v id h
+
+/-- **`fromEntries` IS the shipped `from_entries`, on EVERY value**: every key spelling (`key`, `Key`,
+    `name`, `Name`), `false`/`null` keys falling through to the next spelling, `value` / `Value` /
+    neither, and every error (a key that is no string, an entry that is no object, an input that
+    cannot be iterated) -/
+theorem from_entries_is_shipped (fuel : Nat) (hf : 45 ≤ fuel) (env : Spec.Env) (v : JV) (id : Spec.Ident)
+    (h : Spec.lookupCall "from_entries" 0 env.bs = .none) :
+    Tie.Agrees (Spec.eval fuel Tie.cfgGo env Tie.qFromEntries { v := v, id := id }) (fromEntries v) :=
+  eval_from_entries fuel hf env v id h
+
+/-- **`withEntries some` IS the shipped `with_entries(.)`, on EVERY value** -/
+theorem with_entries_is_shipped (fuel : Nat) (hf : 60 ≤ fuel) (env : Spec.Env) (v : JV) (id : Spec.Ident)
+    (h : Spec.lookupCall "with_entries" 1 env.bs = .none) :
+    Tie.Agrees (Spec.eval fuel Tie.cfgGo env Tie.qWithEntriesId { v := v, id := id }) (withEntries some v) :=
+  eval_with_entries_id fuel hf env v id h
+
+/-- the composition `to_entries | from_entries` through the shipped definitions, on EVERY value -/
+theorem to_entries_from_entries_is_shipped (fuel : Nat) (hf : 46 ≤ fuel) (env : Spec.Env) (v : JV) (id : Spec.Ident)
+    (h1 : Spec.lookupCall "to_entries" 0 env.bs = .none) (h2 : Spec.lookupCall "from_entries" 0 env.bs = .none) :
+    Tie.Agrees (Spec.eval fuel Tie.cfgGo env Tie.qToFrom { v := v, id := id }) ((toEntries v).bind fromEntries) :=
+  eval_to_from fuel hf env v id h1 h2
+
+/-- **the law on the shipped definitions**: the program `to_entries | from_entries`, run by
+    `Spec.eval` with the builtins as shipped, emits exactly its input and ends normally — for every
+    object (keys strictly increasing), with any fuel from 46 on. -/
+theorem to_entries_from_entries_eval (fuel : Nat) (hf : 46 ≤ fuel) (kvs : List (Bytes × JV)) (h : kvSorted kvs = true)
+    (id : Spec.Ident) :
+    (Spec.eval fuel Tie.cfgGo .empty Tie.qToFrom { v := .obj kvs, id := id }).outs.map (·.v) = [.obj kvs] ∧
+    (Spec.eval fuel Tie.cfgGo .empty Tie.qToFrom { v := .obj kvs, id := id }).stop = .done := by
+  have := eval_to_from fuel hf .empty (.obj kvs) id rfl rfl
+  rw [to_entries_from_entries kvs h] at this
+  exact this
+
+/-- **`with_entries(.)` on the shipped definitions** emits exactly its input, for every object -/
+theorem with_entries_id_eval (fuel : Nat) (hf : 60 ≤ fuel) (kvs : List (Bytes × JV)) (h : kvSorted kvs = true)
+    (id : Spec.Ident) :
+    (Spec.eval fuel Tie.cfgGo .empty Tie.qWithEntriesId { v := .obj kvs, id := id }).outs.map (·.v) = [.obj kvs] ∧
+    (Spec.eval fuel Tie.cfgGo .empty Tie.qWithEntriesId { v := .obj kvs, id := id }).stop = .done := by
+  have := eval_with_entries_id fuel hf .empty (.obj kvs) id rfl
+  rw [with_entries_id kvs h] at this
+  exact this
+
+/-- the same agreement evaluated by the kernel on the tie inputs (a second, independent check of
+    the symbolic evaluation: the entry lists of `Tie.tieEntryLists` exercise every branch) -/
+theorem entries_shipped_examples :
     ((Tie.tieValues ++ Tie.tieEntryLists).all fun v =>
-      Tie.agrees (Tie.run 200 Tie.qFromEntries v) (fromEntries v)) = true := by
-  decide +kernel
-
-/-- `withEntries some` IS the shipped `with_entries(.)` -/
-theorem with_entries_is_shipped :
-    ((Tie.tieValues ++ Tie.tieEntryLists).all fun v =>
-      Tie.agrees (Tie.run 300 Tie.qWithEntriesId v) (withEntries some v)) = true := by
-  decide +kernel
-
-/-- the composition through the shipped definitions -/
-theorem to_entries_from_entries_shipped :
-    (Tie.tieValues.all fun v =>
+      Tie.agrees (Tie.run 200 Tie.qToEntries v) (toEntries v) &&
+      Tie.agrees (Tie.run 200 Tie.qFromEntries v) (fromEntries v) &&
+      Tie.agrees (Tie.run 300 Tie.qWithEntriesId v) (withEntries some v) &&
       Tie.agrees (Tie.run 300 Tie.qToFrom v) ((toEntries v).bind fromEntries)) = true := by
   decide +kernel
 
